@@ -185,6 +185,13 @@ class HTMLTranslator(html4css1.HTMLTranslator):
 
         return super().starttag(node, tagname, suffix, **attributes)  # type: ignore[no-any-return]
 
+    def footnote_backrefs(self, node: nodes.Node) -> None:
+        # The back-links of a footnote are written without going through starttag():
+        # prefix the ids they point to like every other id.
+        node['backrefs'] = [ref if ref.startswith('rst-') else f'rst-{ref}'
+                            for ref in node['backrefs']]
+        super().footnote_backrefs(node)
+
     def visit_doctest_block(self, node: nodes.Node) -> None:
         pysrc = node[0].astext()
         if node.get('codeblock'):
